@@ -250,16 +250,17 @@ def _same_shape(ctx, tag, got, d, prm, delta=True, evaluate=True):
     for a in range(NDIR[kind]):
         ctx.check_eq_vec('%s.knotvector%d' % (tag, a), kvs[a], d['kvs'][a])
     total = len(d['P'])
-    ctx.check_true(tag + '.ctrlpts.count', len(got.ctrlpts) == total,
-                   '%d control points after the round trip, %d exported' % (len(got.ctrlpts), total))
+    n = min(len(got.ctrlpts), total)          # compare what is there first, so that a wrong count hides nothing else
     W = d['W'] if d['W'] is not None else [ctx.lit(1)] * total
     if got.rational:
-        ctx.check_eq_grid(tag + '.ctrlpts', got.ctrlpts, d['P'])
-        ctx.check_eq_vec(tag + '.weights', got.weights, W)
-        ctx.check_eq_grid(tag + '.ctrlptsw', got.ctrlptsw, shapes.homog(d['P'], W))
+        ctx.check_eq_grid(tag + '.ctrlpts', got.ctrlpts[:n], d['P'][:n])
+        ctx.check_eq_vec(tag + '.weights', got.weights[:n], W[:n])
+        ctx.check_eq_grid(tag + '.ctrlptsw', got.ctrlptsw[:n], shapes.homog(d['P'], W)[:n])
     else:
         ctx.check_true(tag + '.weights.nonrational_only_if_exported_so', d['W'] is None)
-        ctx.check_eq_grid(tag + '.ctrlpts', got.ctrlpts, d['P'])
+        ctx.check_eq_grid(tag + '.ctrlpts', got.ctrlpts[:n], d['P'][:n])
+    ctx.check_true(tag + '.ctrlpts.count', len(got.ctrlpts) == total and (not got.rational or len(got.weights) == total),
+                   '%d control points after the round trip, %d exported' % (len(got.ctrlpts), total))
     if delta:
         gd = got.delta
         ctx.check_eq_vec(tag + '.delta', [gd] if kind == 'curve' else list(gd), d['delta'])
